@@ -1,6 +1,7 @@
 # -*- coding: utf-8 -*-
 
 import functools
+import threading
 from concurrent.futures import CancelledError, Future, ThreadPoolExecutor
 from typing import (
     Any,
@@ -145,9 +146,16 @@ def gather_futures(source: Iterable[MaybeFuture[T]]) -> "MaybeFuture[List[T]]":
             for inner in pending:
                 inner.cancel()
 
+    # The callbacks of two pending futures can run on two pool workers at the
+    # same time: `done += 1` is a read-modify-write, a lost update would leave
+    # `outer` pending for ever.
+    lock = threading.Lock()
+
     def on_finish(d: "Future[T]") -> Any:
         nonlocal done
-        done += 1
+        with lock:
+            done += 1
+            count = done
 
         try:
             d.result()
@@ -155,7 +163,7 @@ def gather_futures(source: Iterable[MaybeFuture[T]]) -> "MaybeFuture[List[T]]":
             outer.set_exception(err)
             return
 
-        if done == target_count:
+        if count == target_count:
             outer.set_result(
                 cast(
                     "List[T]",
